@@ -26,7 +26,12 @@ RULE = ("lifecycle grid, exhaustive: 8 classes x raise points {before the first 
         "registry histories (registrations and opens INTERLEAVED, every open observed in order) on a fresh WBFileRegistry: every sequence of "
         "<=4 (quick) / <=5 (thorough) operations over {register .a->1, .a->2, .b->1, open f.a, open f.b} + random multi-suffix histories; "
         "on the global registry: histories with a throw-away suffix and override/restore of a registered suffix, plus every registered suffix "
-        "and a list of unknown/odd names. Every case is non-trivial (branch = kind/class/outcome); "
+        "and a list of unknown/odd names; WHOLE PATHS handed to Path() as one string (Props/C14c.v): every string of <=5 (quick) / <=7 (thorough) "
+        "characters over {a, A, dot, slash} on a fresh registry holding .a, .aa and .A, random paths built from leading slashes / dot and dot-dot "
+        "components / directories with dots / stems with dots, leading dots, trailing dots / registered suffixes in both letter cases, doubled, "
+        "with a trailing dot or a further suffix / trailing slashes and dot components, on fresh registries (runner-made classes, no file touched) "
+        "and on the global registry (real files laid out below a scratch directory); name, suffix, class or exception and the constructors run are "
+        "compared with the model. Every case is non-trivial (branch = kind/class/outcome); "
         "distinct = distinct case lines.")
 TRIVIAL_BRANCHES = [0]
 ASSUMPTIONS = [
@@ -36,10 +41,15 @@ ASSUMPTIONS = [
     "descriptors are observed through /proc/self/fd (entries whose link target is the workbook's path or lies below it); the cycle collector "
     "is disabled between the constructor and the measurement after the with-block, and run explicitly before the last measurement",
     "pathlib.PurePath.suffix (Python 3.12 rule) is modelled by hand for single path components and compared with pathlib in every registry case; "
-    "the theorems are stated over the suffix string",
+    "the theorems of Props/C14.v are stated over the suffix string",
+    "how Path(p) for ONE string p on a POSIX system yields name and suffix (pieces between slashes, empty and single-dot pieces dropped, dot-dot "
+    "kept, last dot of the name unless first or last character) is modelled in coq/Model/RegistryPath.v, proved about in Props/C14c.v and compared "
+    "with pathlib on every path of the path streams; paths joined from several arguments, Windows paths and str subclasses are not modelled",
     "XLS is exercised on the sample file sample/excel97_workbook.xls only (xlwt is not installed); a raise in the header phase does not exist "
     "for COBOL_EBCDIC_File (its row_iter uses no loader)",
-    "constructor failures (missing or corrupt file) are outside the property and the model",
+    "constructor failures (missing or corrupt file) are outside the property and the model; so is openpyxl's refusal of a valid workbook whose "
+    "name is dots only before .xlsx (..xlsx): the registry selects XLSX_Workbook for it, the third-party reader rejects the NAME - the path "
+    "stream on the global registry leaves such names out (candidate finding reported to the integrator)",
 ]
 TRUSTED = ["sys.addaudithook 'open' events as the observation of 'opens nothing' for refused suffixes"]
 
@@ -217,6 +227,86 @@ SUFFIX_POOL = [".a", ".b", ".csv", ".A", "", ".x.y", ".tar.gz", "a", "."]
 LOOKUP_EXTRA = ["noext", ".a", "x.", "a.b.a", "x.A", "f.gz", "f.tar.gz", "f..a", "..a", "f.x.y", "f.é"]
 
 
+# ---- whole paths (wire kinds 5 and 6) ----
+P_LEAD = ["", "", "", "/", "//", "///", "./", "../", "/./", "./../"]
+P_DIRS = ["d", "dir.d", "v1.2", ".git", "..", ".", "", "A.CSV", "x.csv", "a b", "tar.gz", "d.", "..d"]
+P_STEM = ["report", "r", "a.b", "archive.tar", ".hidden", "", ".", "..", "x..", "R", "r\u00e9", "a b", "...", ".a.b"]
+P_TRAIL = ["", "", "", "/", "//", "/.", "/./", "/./.", "//.//", "/..", "/../", "/../."]
+P_SUFFIXES = [".csv", ".CSV", ".gz", ".tar.gz", ".json", ".Json", "", ".", "csv", ".\u00e9", ".x", ".a b", ".x/y"]
+G_SUFFIXES = [".csv", ".json", ".ndjson", ".jsonnl", ".xlsx", ".ods", ".xls", ".tab", ".txt"]
+
+
+def _ext_variants(rng, s):
+    """spellings around a suffix: itself, other letter case, doubled dot, trailing dot, a further suffix, none"""
+    return rng.choice([s, s, s, s.upper(), s.title(), s.swapcase(), "." + s, s + ".", s + ".bak", s + s, s + "/", "", ".",
+                       s[1:], s + " ", s[:1] + " " + s[1:]])
+
+
+def _gen_path(rng, suffixes, rooted_ok=True):
+    lead = rng.choice(P_LEAD) if rooted_ok else rng.choice(["", "", "./", "././"])
+    dirs = [rng.choice(P_DIRS) for _ in range(rng.choice([0, 0, 1, 1, 2, 3]))]
+    if rng.random() < 0.35:         # the suffix as registered behind an ordinary stem: mostly opened
+        name = rng.choice(["report", "r", "a.b", "archive.tar", "R", "a b", "x.."]) + rng.choice(suffixes)
+        trail = rng.choice(["", "", "/", "/.", "//./"])
+    else:
+        name = rng.choice(P_STEM) + _ext_variants(rng, rng.choice(suffixes))
+        trail = rng.choice(P_TRAIL)
+    return lead + "/".join(dirs + [name]) + trail
+
+
+def _inside(rel):
+    """a relative path that never climbs above its starting directory and names something in it (a fixture can be laid out for it)"""
+    depth, named = 0, False
+    for x in rel.split("/"):
+        if x in ("", "."):
+            continue
+        if x == "..":
+            depth -= 1
+            if depth < 0:
+                return False
+        else:
+            depth += 1
+            named = True
+    return named and not rel.startswith("/")
+
+
+def _dots_then_xlsx(rel):
+    """Trigger of a candidate finding kept out of the clean stream: a final name made of dots only before '.xlsx' ('..xlsx',
+    '...xlsx').  pathlib gives such a name the suffix '.xlsx', the registry picks XLSX_Workbook, and openpyxl's own check of
+    os.path.splitext (which ignores leading dots and so sees no extension) raises InvalidFileException on a valid workbook."""
+    pieces = [x for x in rel.split("/") if x not in ("", ".")]
+    return bool(pieces) and pieces[-1].endswith(".xlsx") and set(pieces[-1][:-5]) <= {"."}
+
+
+def _path_inputs(ctx):
+    rng = ctx.rng
+    n = 5 if ctx.tier == "quick" else 7
+    ctx.exhaustive.append(f"paths_len<={n}_over_a_A_dot_slash_on_a_registry_with_.a_.aa_.A")
+    regs = [["r", [".a"], 1], ["r", [".aa"], 2], ["r", [".A"], 3]]
+    for k in range(n + 1):
+        for chars in itertools.product("aA./", repeat=k):
+            yield "path_exhaustive", {"kind": 5, "ops": regs + [["o", "".join(chars)]]}
+    for _ in range(700 if ctx.tier == "quick" else 12000):
+        pool = rng.sample(P_SUFFIXES, rng.randint(1, 4))
+        ops = []
+        for _ in range(rng.randint(1, 4)):
+            ops.append(["r", [rng.choice(pool) for _ in range(rng.choice([1, 1, 2, 3]))], rng.randint(1, 6)])
+        good = [x for x in pool if x] or [".csv"]
+        ops.append(["o", _gen_path(rng, good)])
+        if rng.random() < 0.3:      # a registration after an open, then the same path again
+            ops.append(["r", [rng.choice(pool)], rng.randint(1, 6)])
+            ops.append(["o", ops[-2][1]])
+        yield "path_fresh", {"kind": 5, "ops": ops}
+    count, done, tries = (70 if ctx.tier == "quick" else 700), 0, 0
+    while done < count and tries < 50 * count:
+        tries += 1
+        rel = _gen_path(rng, G_SUFFIXES, rooted_ok=False)
+        if not _inside(rel) or "\u00e9" in rel or _dots_then_xlsx(rel):
+            continue
+        done += 1
+        yield "path_global", {"kind": 6, "ops": [["o", rel]]}
+
+
 def inputs(ctx):
     rng = ctx.rng
     ctx.exhaustive.append("lifecycle_grid_8_classes_x_raise_points_x_close_positions_x_2_modes")
@@ -273,6 +363,7 @@ def inputs(ctx):
         pass
     for nm in names:
         yield "global", {"kind": 3, "name": nm}
+    yield from _path_inputs(ctx)
 
 
 # ------------------------------------------------------------------ observation
@@ -413,6 +504,81 @@ def _history(st, inp):
     return [inp["kind"], out]
 
 
+def _lay_out(st, rel):
+    """fixture for a relative path: the directories it walks through and a workbook file where it ends; returns the directory it starts from"""
+    st["trees"] = st.get("trees", 0) + 1
+    base = st["reg"] / f"t{st['trees']}"
+    base.mkdir()
+    pieces = [x for x in rel.split("/") if x not in ("", ".")]
+    cur = base
+    for i, x in enumerate(pieces):
+        if x == "..":
+            cur = cur.parent
+        elif i == len(pieces) - 1:
+            src = st["paths"][1]
+            for ext, cid in CONTENT:
+                if x.endswith(ext):
+                    src = st["paths"][cid]
+                    break
+            if not (cur / x).exists():
+                shutil.copy(src, cur / x)
+        else:
+            cur = cur / x
+            cur.mkdir(exist_ok=True)
+    return base
+
+
+def _paths(st, inp):
+    """Whole path strings: Path(p) for kind 5 (fresh registry, runner-made classes, nothing on disk),
+    Path(scratch/p) on laid-out files for kind 6 (global registry)."""
+    on_global = inp["kind"] == 6
+    reg = st["W"].file_registry if on_global else st["W"].WBFileRegistry()
+    log, classes = [], {}
+
+    def mk(cid):
+        class K:
+            def __init__(self, source, *a, **kw):
+                log.append(cid)
+        K.cid = cid
+        return K
+
+    out = []
+    for op in inp["ops"]:
+        if op[0] == "r":
+            if on_global:
+                raise RuntimeError("path histories on the global registry hold opens only")
+            _, suffixes, cid = op
+            if cid not in classes:
+                classes[cid] = mk(cid)
+            reg.file_suffix(*suffixes)(classes[cid])
+            out.append([0, [S(s) for s in suffixes], cid])
+            continue
+        text = op[1]
+        p = st["Path"](str(_lay_out(st, text)) + "/" + text) if on_global else st["Path"](text)
+        del log[:]
+        wb = None
+        try:
+            wb = reg.open_workbook(p)
+            t = type(wb)
+            res = [0, getattr(t, "cid", None) or CLASS_IDS.get(t.__name__, 0)]
+        except (KeyboardInterrupt, SystemExit, MemoryError):
+            raise
+        except BaseException as ex:
+            res = [1, exn_code(ex)]
+        ctor = list(log)
+        if wb is not None and not hasattr(type(wb), "cid"):
+            ctor = [res[1]]                # a real workbook class: its constructor is what returned wb
+            try:
+                wb.close()
+            except Exception:
+                pass
+        wb = None
+        out.append([1, S(text), S(p.suffix), res, ctor, S(p.name)])
+    if on_global:
+        gc.collect()
+    return [inp["kind"], out]
+
+
 def _global(st, inp):
     name = inp["name"]
     p = _reg_file(st, name)
@@ -448,6 +614,8 @@ def observe(ctx, inp):
         return _lifecycle(st, inp)
     if kind in (2, 4):
         return _history(st, inp)
+    if kind in (5, 6):
+        return _paths(st, inp)
     return _global(st, inp)
 
 
@@ -458,4 +626,7 @@ def describe(inp):
     if inp["kind"] in (2, 4):
         return ("fresh WBFileRegistry: " if inp["kind"] == 2 else "global file_registry: ") + "; ".join(
             (f"file_suffix({', '.join(map(repr, o[1]))})(K{o[2]})" if o[0] == "r" else f"open_workbook({o[1]!r})") for o in inp["ops"])
+    if inp["kind"] in (5, 6):
+        return ("fresh WBFileRegistry: " if inp["kind"] == 5 else "global file_registry, below a scratch directory: ") + "; ".join(
+            (f"file_suffix({', '.join(map(repr, o[1]))})(K{o[2]})" if o[0] == "r" else f"open_workbook(Path({o[1]!r}))") for o in inp["ops"])
     return f"open_workbook({inp['name']!r}) on the global registry"
